@@ -175,11 +175,10 @@ def c16_job(conv, op, pops=0, timeout=900, witness=False):
 
 
 def c16_quick(seed):
-    # 9 jobs (the harness limit for a quick run is ~15 min; 14 parallel jobs took 937 s):
+    # 7 jobs (a quick run is stopped after 15 min; 14 parallel jobs took 937 s, 9 took 718 s):
     # the five mutating operation kinds + find for the pairs convention, two kinds (seed-rotated) for whole items
-    jobs = [c16_job("pairs", op) for op in (0, 2, 3, 4, 6)]
-    ops = [[2, 4], [0, 3], [6, 4], [2, 3]][seed % 4]
-    jobs += [c16_job("whole", op) for op in ops]
+    jobs = [c16_job("pairs", op) for op in (0, 2, 3, 4)]
+    jobs += [c16_job("whole", [2, 4, 3, 0][seed % 4])]
     jobs.append(Job("deque", "c16::c16_push_not_greater_panics_pairs", kind="must_panic", note="assertion failed: self.marker.cmp", timeout=300, mem_gb=4,
                     bounds="pairs: every live item not greater than the last must panic"))
     jobs.append(Job("deque", "c16::c16_push_not_greater_panics_whole", kind="must_panic", note="assertion failed: self.marker.cmp", timeout=300, mem_gb=4,
@@ -204,7 +203,7 @@ def c16_thorough(seed):
 reg(Prop(
     "C16", "SortedDeque vs reference ordered map",
     quick=c16_quick, thorough=c16_thorough,
-    bounds_quick="one step from every valid physical layout of <= 5 items (symbolic strictly increasing u8 keys, symbolic tombstones, live ends): operation kinds push / remove / pop_first / pop_last / remove+find+remove, each as its own job (operation KIND enumerated, all data symbolic) for the (key, Option<value>) convention, 2 kinds (seed-rotated) for the whole-item convention; must-panic harnesses for both conventions",
+    bounds_quick="one step from every valid physical layout of <= 5 items (symbolic strictly increasing u8 keys, symbolic tombstones, live ends): operation kinds push / remove / pop_first / pop_last, each as its own job (operation KIND enumerated, all data symbolic) for the (key, Option<value>) convention, 1 kind (seed-rotated) for the whole-item convention; must-panic harnesses for both conventions",
     bounds_thorough="all 7 operation kinds x {0,1,2} preceding pop_first calls x both conventions",
     outside=["more than 5 physical items", "comparator objects other than ()", "key types other than u8",
              "operation kind is enumerated per job (a symbolic kind ran out of memory); the layout, keys, values, tombstones and arguments are symbolic"],
@@ -428,11 +427,11 @@ def c19_job(name, allowed=(), timeout=1500):
 p19 = Prop(
     "C19", "NFS base time forward only, trusted devices only",
     quick=[c19_job("c19_untrusted_before_any_trust"), c19_job("c19_trust_then_observe"), c19_job("c19_observe_twice"),
-           c19_job("c19_get_base_time_scans_trusted_paths"), c19_job("c19_maybe_observe_file_time"), c19_job("c19_scan_base_time")],
+           c19_job("c19_get_base_time_scans_trusted_paths"), c19_job("c19_maybe_observe_file_time")],
     thorough=[c19_job("c19_untrusted_before_any_trust"), c19_job("c19_trust_then_observe"), c19_job("c19_observe_twice"),
-              c19_job("c19_get_base_time_scans_trusted_paths"), c19_job("c19_maybe_observe_file_time"), c19_job("c19_scan_base_time")],
+              c19_job("c19_get_base_time_scans_trusted_paths"), c19_job("c19_maybe_observe_file_time"), c19_job("c19_scan_base_time", timeout=3000)],
     bounds_quick="histories of <= 3 module calls: {observe before any trust}; {add_trusted_path, observe}; {add_trusted_path, observe, observe}; {add_trusted_path, get_base_time(now past the threshold)}; {add_trusted_path, maybe_observe_file_time | scan_base_time}; device ids fully symbolic (trusted / untrusted / path moved to another device), change times from an 8-value domain covering older / equal / newer",
-    bounds_thorough="same as quick",
+    bounds_thorough="as quick plus {add_trusted_path, scan_base_time} (ran out of 14 GB in the quick configuration)",
     outside=["real file systems (every fs/clock call is a stub; the stub list is part of the claim)", "change times outside the 8-value domain (the voucher computation on fully symbolic times did not finish in 50 minutes)",
              "concurrent callers (C13/C18 cover the shared cell)", "RwLock poisoning; I/O errors from stat/open/touch"],
     assumptions=["stubs: " + "; ".join(C19_STUBS), "stat(2) contract: ctime >= 0, 0 <= nsec < 10^9"],
@@ -484,37 +483,70 @@ IOV_OUTSIDE = ["operation kinds and slice lengths are concrete per skeleton (sym
                "uninitialised-memory reads (Kani's -Z uninit-checks crashes); allocation failure"]
 IOV_ASSUME = ["hook H2: 4-byte arena chunks (constant sequence), copy thresholds SMALL_COPY=1 / MAX_OPPORTUNISTIC_COPY=3 (cfg woodpile_verif_arena)"]
 
+IOV_NOT_DECIDED = ("skeletons that did NOT finish within 20 GB / 40 min and are therefore not part of any claim: k2 (merge + regrow + advance_slices), k4 (four placeholders, out-of-order fills), "
+                   "k5/k6/k7 (longer variants), k8b/k8c (advance_slices next to a pending placeholder), k9 (Read::read / extend / pop_front), k11 (clone + take_arena, symbolic drop order); "
+                   "in particular ConsumingIovec::advance_slices / Read::read are only exercised through the HCOBS drain harnesses")
+
 reg(Prop("C03", "OwningIovec FIFO pipe",
          quick=[iov_job("k3_anchored_push_flush"), iov_job("k5q_clear_resets_accounting"), iov_job("k8q_consume_clamped_to_stable_prefix"), iov_job("k7q_clone_survives_drain_and_refill")],
-         thorough=[iov_job(n, 3000, 24) for n in ("k1_patch_merge_consume", "k2_merge_regrow_advance", "k3_anchored_push_flush", "k5q_clear_resets_accounting", "k5_clear_then_reuse",
-                                                    "k8q_consume_clamped_to_stable_prefix", "k8_overasking_consumers_with_pending", "k9_read_extend_pop")],
-         bounds_quick="4 skeletons of 3-5 operations (anchored push + flush, clear + reuse, over-asking consume with a pending placeholder, clone/drain/refill); after the operations the whole read side is compared with a shadow buffer at a symbolic position, total_size/len/return values checked exactly",
-         bounds_thorough="8 skeletons incl. merge + regrowth + partial byte consumption, Read::read, extend, pop_front",
-         outside=IOV_OUTSIDE, assumptions=IOV_ASSUME))
+         thorough=[iov_job(n, 3000, 24) for n in ("k1_patch_merge_consume", "k3_anchored_push_flush", "k5q_clear_resets_accounting",
+                                                    "k8q_consume_clamped_to_stable_prefix", "k8_overasking_consumers_with_pending", "k7q_clone_survives_drain_and_refill")],
+         bounds_quick="4 skeletons of 3-5 operations (anchored push + flush + consume, consume + clear + reuse, over-asking consume with a pending placeholder, clone/drain/refill); after the operations the whole read side is compared with a shadow buffer at a symbolic position, total_size/len/return values checked exactly",
+         bounds_thorough="6 skeletons incl. placeholder + merging copy + two consumes, and the two-byte-placeholder over-asking skeleton",
+         outside=IOV_OUTSIDE + [IOV_NOT_DECIDED], assumptions=IOV_ASSUME))
 reg(Prop("C04", "pending backpatches invisible",
-         quick=[iov_job("k8q_consume_clamped_to_stable_prefix"), iov_job("k6q_take_moves_pending_placeholder"), iov_job("k8b_byte_drain_before_merged_placeholder")],
-         thorough=[iov_job(n, 3000, 24) for n in ("k1_patch_merge_consume", "k8q_consume_clamped_to_stable_prefix", "k8_overasking_consumers_with_pending", "k8b_byte_drain_before_merged_placeholder",
-                                                    "k8c_overasking_advance_with_pending", "k6q_take_moves_pending_placeholder", "k4_fill_order_0132", "k4_fill_order_3210", "k4_fill_order_1302")],
-         bounds_quick="3 skeletons with one placeholder in flight: over-asking slice consumer, byte drain just before a placeholder merged into a partially consumable slice, take() with a pending placeholder; stable prefix never reaches the earliest pending placeholder, iovs()/has_pending_backrefs agree, after the backfill everything is consumable with the filled value",
-         bounds_thorough="plus four placeholders in flight filled in three out-of-order permutations and the two-byte placeholder skeletons",
-         outside=IOV_OUTSIDE + ["more than 4 placeholders in flight (a tombstone-scan defect that needs 5 is outside)"], assumptions=IOV_ASSUME))
+         quick=[iov_job("k8q_consume_clamped_to_stable_prefix"), iov_job("k6q_take_moves_pending_placeholder")],
+         thorough=[iov_job(n, 3000, 24) for n in ("k1_patch_merge_consume", "k8q_consume_clamped_to_stable_prefix", "k8_overasking_consumers_with_pending", "k6q_take_moves_pending_placeholder")],
+         bounds_quick="2 skeletons with one placeholder in flight: over-asking slice consumer before and after the backfill; take() with a pending placeholder; stable prefix never reaches the earliest pending placeholder, iovs()/has_pending_backrefs agree, after the backfill everything is consumable with the filled value",
+         bounds_thorough="4 skeletons incl. a placeholder merged with a following copy and a two-byte placeholder",
+         outside=IOV_OUTSIDE + ["more than one placeholder in flight inside this family (the four-placeholder / out-of-order-fill skeletons did not finish; out-of-order fills are exercised at the SortedDeque level by C16 and through the Encoder by C07/C09)", IOV_NOT_DECIDED],
+         assumptions=IOV_ASSUME))
 reg(Prop("C05", "exposed slices point into live memory",
          quick=[iov_job("k13_anchored_slice_outlives_arena"), iov_job("k3_anchored_push_flush"), iov_job("k7q_clone_survives_drain_and_refill"), iov_job("k12_clear_releases_chunks")],
          thorough=[iov_job(n, 3000, 24) for n in ("k13_anchored_slice_outlives_arena", "k3_anchored_push_flush", "k7q_clone_survives_drain_and_refill", "k7b_clone_then_mutate_clone",
                                                     "k12_clear_releases_chunks", "k11q_drop_restores_counters", "k1_patch_merge_consume", "k6q_take_moves_pending_placeholder")],
          bounds_quick="CBMC's pointer checks (deallocated / dead object, out-of-bounds, invalid pointer) on every dereference, with every exposed byte read at a symbolic position after the operations of 4 skeletons: AnchoredSlice parts outliving their arena, anchored push + cache flush, clone sharing a chunk with a drained-and-refilled original, clear + flush + reuse + real drop",
          bounds_thorough="8 skeletons",
-         outside=IOV_OUTSIDE + ["StreamChunker/StreamReader/Encoder/Decoder anchored input is covered by the C08 / C06 / C01 harness families' own pointer checks, not here"], assumptions=IOV_ASSUME))
+         outside=IOV_OUTSIDE + ["StreamChunker chunks are covered by the C08 step harness's own pointer checks; Encoder/Decoder anchored input by the C07/C09 harnesses when those are run; StreamReader records by C06", IOV_NOT_DECIDED],
+         assumptions=IOV_ASSUME))
 reg(Prop("C10", "arena memory reclaimed",
          quick=[iov_job("k12_clear_releases_chunks"), iov_job("k11q_drop_restores_counters")],
-         thorough=[iov_job(n, 3000, 24) for n in ("k12_clear_releases_chunks", "k11q_drop_restores_counters", "k11_drop_orders_restore_counters")],
-         bounds_quick="2 skeletons that end in real drops and compare ByteArena::num_live_chunks/bytes with their starting values: clear + flush releases every chunk; two chunks, consume(k), drop",
-         bounds_thorough="plus clone + take_arena dropped in a symbolic order",
-         outside=IOV_OUTSIDE + ["the bounded-footprint-while-streaming half of the property (needs long Encoder/Decoder/StreamReader histories, beyond what CBMC finished here)"], assumptions=IOV_ASSUME))
+         thorough=[iov_job(n, 3000, 24) for n in ("k12_clear_releases_chunks", "k11q_drop_restores_counters")],
+         bounds_quick="2 skeletons that end in real drops and compare ByteArena::num_live_chunks/bytes with their starting values: clear + flush releases every chunk; two chunks, consume(k), drop (the first chunk is released as soon as its only slice is consumed)",
+         bounds_thorough="same as quick",
+         outside=IOV_OUTSIDE + ["the bounded-footprint-while-streaming half of the property (needs long Encoder/Decoder/StreamReader histories, beyond what CBMC finished here)", IOV_NOT_DECIDED], assumptions=IOV_ASSUME))
 reg(Prop("C20", "clone / take independence",
          quick=[iov_job("k6q_take_moves_pending_placeholder"), iov_job("k7q_clone_survives_drain_and_refill"), iov_job("k7b_clone_then_mutate_clone")],
-         thorough=[iov_job(n, 3000, 24) for n in ("k6q_take_moves_pending_placeholder", "k6_take_with_pending_placeholder", "k7q_clone_survives_drain_and_refill", "k7_clone_drain_refill_original",
-                                                    "k7b_clone_then_mutate_clone")],
+         thorough=[iov_job(n, 3000, 24) for n in ("k6q_take_moves_pending_placeholder", "k7q_clone_survives_drain_and_refill", "k7b_clone_then_mutate_clone")],
          bounds_quick="3 skeletons: take() with a pending placeholder (source empty and usable, backfill through the taken value); clone then drain + refill the original; clone, borrowed push + consume on the clone while the original merges a copy in place",
-         bounds_thorough="5 skeletons",
-         outside=IOV_OUTSIDE, assumptions=IOV_ASSUME))
+         bounds_thorough="same as quick",
+         outside=IOV_OUTSIDE + [IOV_NOT_DECIDED], assumptions=IOV_ASSUME))
+
+
+# ---------------------------------------------------------------------------
+# C07 — HCOBS wire format: the kernels that could be decided (see DESIGN.md B.5 for what could not)
+
+HCOBS_PROD = dict(cfgs=("woodpile_verif", "woodpile_verif_arena"), env={"WOODPILE_VERIF_ARENA_CHUNK": "8,0"})
+
+
+def c07_job(name, bounds, timeout=900):
+    return Job("hcobs", name, timeout=timeout, mem_gb=10, bounds=bounds,
+               unwind_fns={"swap_nonoverlapping": 10, "SmallVec.*truncate": 3, "find_hint_size": 10}, **HCOBS_PROD)
+
+
+C07_JOBS = [
+    c07_job("prod::prod_limits_are_252_and_64008", "the limits in force in a build WITHOUT the limit-replacing hook are exactly 252 / 64008, RADIX 253, STUFF_SEQUENCE FE FD"),
+    c07_job("prod::prod_header_kernel_two_bytes", "EncoderState::encode_header (hook H4) for EVERY chunk size 0..=64008: backfilled bytes are [size mod 253, size div 253], both < 0xFD"),
+    c07_job("prod::prod_header_kernel_one_byte", "EncoderState::encode_header for EVERY first-chunk size 0..=252"),
+    c07_job("fss::fss_first_occurrence", "hcobs::find_stuff_sequence on EVERY byte string of length <= 40: index of the first FE FD, or None"),
+]
+p07 = Prop("C07", "HCOBS wire format (constants, header arithmetic, stuff-sequence search)",
+           quick=C07_JOBS, thorough=C07_JOBS,
+           bounds_quick="production constants pinned; header arithmetic for all 64009 chunk sizes; stuff-sequence search for all byte strings of length <= 40",
+           bounds_thorough="same as quick",
+           outside=["the Encoder's greedy chunking state machine and the Decoder's acceptance state machine as wholes: differential harnesses (Encoder == reference encoder, Decoder == reference decoder, 3-4 symbolic bytes, tiny limits, 32-byte arena chunks, concrete piece boundaries and input methods) did not get through symbolic execution in 18-40 minutes and then exceeded 14 GB; they are kept in kani/hcobs (enc.rs, dec.rs) but are not run",
+                    "decoder header acceptance at production limits (harnesses prod_decoder_* ran out of 12 GB because Decoder::finish drops an OwningIovec)",
+                    "therefore: a change confined to consume_once / encode_borrow / encode_copy / the DecoderState transitions is NOT detected by this check"],
+           assumptions=["hook H4 (hcobs::verif_hooks::encode_header) exposes the private header kernel; hook H2 shrinks arena chunks to 8 bytes; the limit hook H1 is OFF in these builds"])
+p07.technique = "bounded model checking (Kani/CBMC/SAT) of the header kernel, the constants and find_stuff_sequence"
+reg(p07)
